@@ -533,11 +533,44 @@ class ByteArray:
         self.val = val
 
 
+def _float_of_int_term(ip, t):
+    """float(k) for a python int k: exact up to 2**53 in magnitude, beyond that the nearest double (relative error <= 2**-53)"""
+    used(ip, 'float(int): exact for |k| <= 2**53, otherwise some real within relative error 2**-53 (binary64 rounding)')
+    r = ip.ctx.fresh('float_of_int', z3.RealSort())
+    tr = z3.ToReal(t)
+    big = 2 ** 53
+    a = z3.If(tr >= 0, tr, -tr)
+    ip.ctx.assume(z3.If(a <= big, r == tr, z3.And(r - tr <= a / big, tr - r <= a / big)))
+    return Sym(r, 'real')
+
+
 def b_float(ip, v=0):
-    if isinstance(v, (int, Fraction)):
-        return Fraction(v)
-    if isinstance(v, Sym) and v.ty in ('int', 'real', 'bool'):
+    if isinstance(v, bool):
+        return Fraction(int(v))
+    if isinstance(v, int):
+        return Fraction(v) if abs(v) <= 2 ** 53 else Fraction(float(v))
+    if isinstance(v, Fraction):
+        return v
+    if isinstance(v, Sym) and v.ty in ('real', 'bool'):
         return Sym(ops.term(v, 'real'), 'real')
+    if isinstance(v, Sym) and v.ty == 'int':
+        return _float_of_int_term(ip, v.t)
+    if isinstance(v, str):
+        try:
+            return Fraction(float(v))
+        except (ValueError, OverflowError):
+            ip.ctx.raise_exc('ValueError', 'could not convert string to float')
+    if isinstance(v, Sym) and v.ty == 'str':
+        t = z3.simplify(v.t) if z3.is_seq(v.t) else v.t
+        if z3.is_app(t) and t.decl().name() == 'py_str_of_int':
+            used(ip, 'float(str(k)) = float(k) for python ints (decimal text of an int parses to the nearest double)')
+            return _float_of_int_term(ip, t.children()[0])
+        used(ip, 'float(s) of an arbitrary string: ValueError or some real (unconstrained)')
+        if ip.ctx.choose(2) == 1:
+            ip.ctx.raise_exc('ValueError', 'could not convert string to float')
+        return Sym(ip.ctx.fresh('float_of_str', z3.RealSort()), 'real')
+    if v is None or isinstance(v, (PyList, PyDict, PySet, tuple, bytes)):
+        ip.ctx.raise_exc('TypeError', 'float() argument must be a string or a real number')
     raise Unsupported('float()')
 
 
